@@ -124,7 +124,9 @@ MUTATIONS = [
      ['bid128_frexp'], 'frexp: exponent bias off by one', 'I'),
     ('J01', 'bid128_to_int32.rs', '            value if value > 10 => { // x >= 10^10 ~= 2^33.2... (cannot fit in 32 bits)',
      '            value if value > 11 => { // x >= 10^10 ~= 2^33.2... (cannot fit in 32 bits)', 0,
-     ['bid128_to_int32_rnint'], 'to_int32_rnint: the 11-integer-digit operands are no longer rejected (inside the domain of the PARTIAL theorem)', 'J'),
+     ['bid128_to_int32_rnint'], 'to_int32_rnint: the 11-integer-digit operands are no longer rejected', 'J'),
+    ('J02', 'bid128_to_int32.rs', 'if tmp64 >= 0x500000005u64 {', 'if tmp64 > 0x500000005u64 {', 0,
+     ['bid128_to_int32_rninta'], 'to_int32_rninta: -2^31 - 1/2 (a tie, rounds away to -2^31 - 1) is no longer rejected', 'J'),
     # harmless edits: everything must still check
     ('H01', NC, None, None, 0, [], 'is_zero: local variable sig_x renamed to sx (whole function)'),
     ('H02', NC, '    let x_exp: BID_UINT64;\n    let y_exp: BID_UINT64;\n\n    #[cfg(target_endian = "big")]\n    let mut x = *x;',
